@@ -569,5 +569,26 @@ fn main() {
         }
         return;
     }
+    // hand triage: c14 --probe pkg.roto m.roto [function names...] compiles the two
+    // files with the context runtime, prints the compile-time log and calls the functions
+    if a.len() >= 4 && a[1] == "--probe" {
+        let pkg = std::fs::read_to_string(&a[2]).unwrap();
+        let m = std::fs::read_to_string(&a[3]).unwrap();
+        let env = WithCtx(host::runtime().with_context_type::<CtxT>().unwrap());
+        host::clear_log();
+        let r = env.compile(&pkg, &m);
+        println!("log after compile: {:?}", marks(&host::take_log()));
+        match r {
+            Compiled::Panic(p) => println!("PANIC {p}"),
+            Compiled::Report(s, k) => println!("REPORT {k:?}\n{s}"),
+            Compiled::Ok(mut p) => {
+                for name in &a[4..] {
+                    let r = WithCtx::call0(&mut p, name);
+                    println!("{name}() = {r:?} log {:?}", marks(&host::take_log()));
+                }
+            }
+        }
+        return;
+    }
     vcore::main(&C14)
 }
